@@ -75,6 +75,11 @@ pub fn fixed_programs() -> Vec<FixedProg> {
             lines: vec![head, "20 GOSUB 100: PRINT \"r\";W;Y: END", "100 IF Y THEN INPUT W ELSE PRINT \"no\"", "110 RETURN"],
             replies: vec!["8"],
         },
+        FixedProg {
+            name: "a never-assigned variable read late, in a loop",
+            lines: vec![head, "20 FOR I=1 TO 2: PRINT \"a\";I;", "30 PRINT T9;Y: NEXT I", "40 PRINT T9+1"],
+            replies: vec![],
+        },
         // arrays the program dimensions only later
         FixedProg {
             name: "DIM after the first statements",
@@ -98,7 +103,13 @@ pub fn fixed_programs() -> Vec<FixedProg> {
     ]
 }
 
-pub const INSPECTIONS: [&str; 24] = [
+pub const INSPECTIONS: [&str; 28] = [
+    // a FOR that is refused (no limit, an ill-typed limit, a failing start value) opens nothing and
+    // closes nothing; a read of a name the program itself reads unassigned later on
+    "FOR I=1 TO",
+    "FOR I=1 TO \"X\"",
+    "FOR J=1/0 TO 2",
+    "PRINT T9",
     // END typed at a breakpoint ends nothing (there is no run to end) and forgets nothing
     "END",
     "PRINT I;: END",
@@ -159,6 +170,9 @@ pub fn run_with_breaks(p: &FixedProg, breaks: &[usize], inspection: &str) -> (Ou
 /// outcome, so interrupted and uninterrupted runs are cut at the same boundary count).
 pub fn run_lines_with_breaks(lines: &[String], replies: &[String], breaks: &[usize], inspection: &str, max_boundaries: usize) -> (Outcome, Vec<Ev>, usize, u64) {
     let mut s = Sess::new();
+    // runtime warnings on: what the program is warned about is part of what it shows (the
+    // inspections' own warnings are dropped with the rest of their output)
+    s.it.enable_warnings = true;
     let mut hist = vec![];
     let mut calls = 0u64;
     for l in lines {
@@ -177,7 +191,7 @@ pub fn run_lines_with_breaks(lines: &[String], replies: &[String], breaks: &[usi
     let end;
     loop {
         calls += 1;
-        transcript.extend(program_records(&s.recs));
+        transcript.extend(s.recs.iter().filter(|r| !matches!(r, Rec::Break(_) | Rec::Error(_, _) | Rec::Trace(_))).map(|r| format!("{:?}", r)));
         s.recs.clear();
         match &last {
             CallResult::Panic(pn) => {
@@ -480,7 +494,7 @@ fn grammar_pass(thorough: bool) -> (u64, u64, u64, Vec<Violation>) {
                                             None => "final interpreter state differs".to_string(),
                                         }),
                                         detail: format!("{:?} with replies {:?}, break at boundary {} with inspection {:?}: transcript {:?} end {:?}; uninterrupted: {:?} end {:?}", lines, replies, b, insp, o.transcript, o.end, base_o.transcript, base_o.end),
-                                        case: case_history(&hist, false, false),
+                                        case: case_history(&hist, true, false),
                                     });
                                     break 'b;
                                 }
@@ -552,7 +566,7 @@ pub fn run(thorough: bool) -> Report {
                             None => "final interpreter state differs".to_string(),
                         }),
                         detail: format!("breaks at boundaries {:?} with inspection {:?}: transcript {:?} end {:?}; uninterrupted: {:?} end {:?}{}", sset, insp, o.transcript, o.end, base[*pi].transcript, base[*pi].end, if o.transcript == base[*pi].transcript && o.end == base[*pi].end { format!("; final state {:?} vs {:?}", o.final_state, base[*pi].final_state) } else { String::new() }),
-                        case: case_history(&hist, false, false),
+                        case: case_history(&hist, true, false),
                     });
                 }
             }
